@@ -7,6 +7,7 @@ spec side of the failing-input search when a proof obligation or the model corre
 Nothing here is derived from /repo: the BLS12-381 parameters are spelled out from the standard.
 """
 import hashlib
+import os
 
 Q = 0x1a0111ea397fe69a4b1ba7b6434bacd764774b84f38512bf6730d2a0f6b0f6241eabfffeb153ffffb9feffffffffaaab
 R = 0x73eda753299d7d483339d80809a1d80553bda402fffe5bfeffffffff00000001
@@ -751,7 +752,7 @@ def _pdiv_exact(K, a, b):
     return _ptrim(K, q)
 
 
-def gen_constants(path="/verif/lean/PP/Gen/Maps.lean"):
+def gen_constants(path=os.path.join(os.path.dirname(os.path.dirname(os.path.abspath(__file__))), "lean", "PP", "Gen", "Maps.lean")):
     """decode the extracted raw (Montgomery) isogeny coefficient tables of lean/PP/Gen/Maps.lean"""
     import re
     src = open(path).read()
